@@ -1,0 +1,18 @@
+// Copyright 2024 RunReveal Inc.
+// SPDX-License-Identifier: Apache-2.0
+
+//go:build verif
+
+package parser
+
+// VerifHook, when non-nil, is called with a site number
+// every time an instrumented loop body or production is entered.
+// It exists only in builds with the "verif" tag
+// and must be set before any other function of this package is called.
+var VerifHook func(site int)
+
+func verifSite(site int) {
+	if h := VerifHook; h != nil {
+		h(site)
+	}
+}
